@@ -87,7 +87,7 @@ theorem escape_not_idempotent_witness :
 /-- `Table("a.b")`: the text after the LAST dot is the table, the text before it the schema -/
 theorem last_dot_split (a b : Name) (sch : Schema) (cfg : Name) (hb : '.' ∉ b) (ha : a.count '.' ≤ 1) :
     Table.mk (a ++ '.' :: b) sch cfg =
-      .ok (⟨Schema.mk? (some a) cfg, escape b, escape (escape b)⟩, sch.isKnown) := by
+      .ok (⟨Schema.mk? (some a) cfg, escape b, escape b⟩, sch.isKnown) := by
   unfold Table.mk
   rw [rsplitLast_append hb]
   have : ¬ (splitOn '.' a).length > 2 := by rw [splitOn_length]; omega
@@ -97,9 +97,10 @@ example : '.' ∉ "T".toList ∧ "db.\"S\"".toList.count '.' ≤ 1 := by decide
 
 /-- an undotted name takes the schema it is given -/
 theorem no_dot_keeps_schema (n : Name) (sch : Schema) (cfg : Name) (alias : Option Name) (h : '.' ∉ n) :
-    Table.mk n sch cfg alias = .ok (⟨sch, escape n, escape (alias.getD (escape n))⟩, false) := by
+    Table.mk n sch cfg alias = .ok (⟨sch, escape n, match alias with | some a => escape a | none => escape n⟩, false) := by
   unfold Table.mk
   rw [rsplitLast_eq_none.mpr h]
+  cases alias <;> rfl
 
 /-- `Table(name)` is rejected (SQLLineageException) exactly when the name has more than three dot-separated parts -/
 theorem part_limit (name : Name) (sch : Schema) (cfg : Name) (alias : Option Name) :
@@ -216,7 +217,7 @@ example : colSourceName "\"Ab\"".toList = "Ab".toList ∧ colTargetName "\"Ab\""
 
 /-- a reference whose last part has no dot always builds, whatever its qualifier parts -/
 theorem ofParts_ok (qs : List Name) (t : Name) (cfg : Name) (ht : '.' ∉ t) :
-    ∃ sch, Table.ofParts (qs ++ [t]) cfg = .ok (⟨sch, escape t, escape (escape t)⟩, false) := by
+    ∃ sch, Table.ofParts (qs ++ [t]) cfg = .ok (⟨sch, escape t, escape t⟩, false) := by
   unfold Table.ofParts
   rw [List.reverse_append]
   cases hr : qs.reverse with
@@ -243,13 +244,13 @@ example : '.' ∉ "T".toList ∧ escape "\"Sc\"".toList ≠ [] := by decide
 theorem same_table_every_position (p q : TablePos) (qs : List Name) (t : Name) (cfg : Name) (imp : Schema)
     (ht : '.' ∉ t) : tableAt p (qs ++ [t]) cfg imp = tableAt q (qs ++ [t]) cfg imp := by
   obtain ⟨sch, hT⟩ := ofParts_ok qs t cfg ht
-  have key : ∀ pos, tableAt pos (qs ++ [t]) cfg imp = .ok ⟨sch, escape t, escape (escape t)⟩ := by
+  have key : ∀ pos, tableAt pos (qs ++ [t]) cfg imp = .ok ⟨sch, escape t, escape t⟩ := by
     intro pos
     have hq : qualifierKey t = some (escape t) := by simp [qualifierKey, Column.mk, normSourceTuple]
-    have hd : dictGet (aliasMapOf [⟨sch, escape t, escape (escape t)⟩]) (escape t)
-        = some (.table ⟨sch, escape t, escape (escape t)⟩) :=
+    have hd : dictGet (aliasMapOf [⟨sch, escape t, escape t⟩]) (escape t)
+        = some (.table ⟨sch, escape t, escape t⟩) :=
       dictGet_const (by simp [aliasMapOf])
-        ⟨(escape t, .table ⟨sch, escape t, escape (escape t)⟩), by simp [aliasMapOf], rfl⟩
+        ⟨(escape t, .table ⟨sch, escape t, escape t⟩), by simp [aliasMapOf], rfl⟩
     cases pos <;> simp [tableAt, hT, hq, hd, bind, Except.bind, pure, Except.pure]
   rw [key p, key q]
 
@@ -326,7 +327,7 @@ theorem unknown_qualifier_ok_of_stable {τ : Name} (h : Stable τ) (hd : '.' ∉
       Table.ofParts [τ] [] = .ok (T, w) ∧ src.parent = some (.table T) := by
   have hd' : '.' ∉ escape τ := not_mem_escape_of_not_alpha (by decide) hd
   have h' : escape (escape τ) = escape τ := h
-  let T : Table := ⟨Schema.mk? none [], escape τ, escape (escape τ)⟩
+  let T : Table := ⟨Schema.mk? none [], escape τ, escape τ⟩
   refine ⟨(Column.fromRawName (escape c)).addParent (.table T), T, false, ?_, ?_, ?_⟩
   · simp only [Column.toSourceColumns, Column.mk, normSourceTuple, Option.getD, List.map, Option.map,
       dedupParents, dictGet, List.reverse_nil, List.find?_nil, List.foldlM, bind, Except.bind,
@@ -337,11 +338,17 @@ theorem unknown_qualifier_ok_of_stable {τ : Name} (h : Stable τ) (hd : '.' ∉
 
 example : Stable "\"tb\"".toList ∧ '.' ∉ "\"tb\"".toList := by decide
 
-/-- **finding D50**: a table written `"Tab"` without alias answers to `tab` as well: the default alias (the already normalised
-    name) is normalised a second time (models.py:66), so next to a table really called `tab` the qualifier `tab` denotes `"Tab"` -/
-theorem dev_D50_default_alias_normalised_twice :
+/-- **D50 repaired**: a table written `"Tab"` without alias answers to `Tab` only - its default alias is its own, already
+    normalised name, not normalised a second time (models.py:66); before the repair the alias was `tab`, which shadowed a table
+    really called `tab` in the same FROM clause -/
+theorem fixed_D50_default_alias :
     ((Table.mk "\"Tab\"".toList ⟨"s".toList⟩ []).toOption.map (fun r => (r.1.rawName, r.1.alias))) =
-      some ("Tab".toList, "tab".toList) := by decide
+      some ("Tab".toList, "Tab".toList) := by decide
+
+/-- in general: without an explicit alias, the alias IS the table's name -/
+theorem default_alias_is_name (n : Name) (sch : Schema) (cfg : Name) (h : '.' ∉ n) :
+    ∃ T w, Table.mk n sch cfg = .ok (T, w) ∧ T.alias = T.rawName :=
+  ⟨_, _, no_dot_keeps_schema n sch cfg none h, rfl⟩
 
 /-- … but not for quoted mixed case -/
 theorem dev_D20_unknown_qualifier :
